@@ -364,7 +364,7 @@ func genCase(t *rapid.T) Case {
 	}
 	c.EMHash = h
 	c.Form = rapid.IntRange(1, 2).Draw(t, "form")
-	c.Kind = rapid.SampledFrom([]string{"form1", "form2", "form1", "form2", "replace", "replace", "replace", "replace", "shortpad", "shortpad", "shortem", "wronghash", "otherdata", "sigflip", "tbsflip", "sigrandom", "ecdsa-device", "siglonger", "dervariant", "dervariant", "foreignid", "foreignid"}).Draw(t, "kind")
+	c.Kind = rapid.SampledFrom([]string{"form1", "form2", "form1", "form2", "replace", "replace", "replace", "replace", "shortpad", "shortpad", "shortem", "wronghash", "otherdata", "sigflip", "tbsflip", "sigrandom", "ecdsa-device", "siglonger", "dervariant", "dervariant", "foreignid", "foreignid", "midjunk", "midjunk"}).Draw(t, "kind")
 	switch c.Kind {
 	case "form1":
 		c.Form = 1
@@ -410,6 +410,11 @@ func genCase(t *rapid.T) Case {
 		c.Garbage = rapid.SliceOfN(rapid.Byte(), 0, 16).Draw(t, "garbage")
 	case "shortem":
 		c.PadLen = rapid.IntRange(0, 7).Draw(t, "padLen")
+	case "midjunk":
+		// a full-length message with shortened padding whose freed octets sit BETWEEN the unaltered identifier and the
+		// digest (which still ends the message)
+		c.PadLen = rapid.SampledFrom([]int{8, 8, 9, 16, 32, 0, 7}).Draw(t, "midPad")
+		c.Garbage = rapid.SliceOfN(rapid.Byte(), 1, 4).Draw(t, "midFill")
 	case "dervariant":
 		// a full-length message whose digest identifier is another DER / BER spelling of the same content
 		c.PadLen = rapid.IntRange(0, 7).Draw(t, "derVariant")
@@ -544,6 +549,16 @@ func buildSignature(c Case) (tbs, sig []byte, err error) {
 		}
 		em = append([]byte{0, 1}, bytes.Repeat([]byte{0xff}, k-3-len(t))...)
 		em = append(append(em, 0), t...)
+	case "midjunk":
+		if k-3-c.PadLen-len(prefix)-len(dig) < 1 {
+			return nil, nil, fmt.Errorf("key too small")
+		}
+		em = append([]byte{0, 1}, bytes.Repeat([]byte{0xff}, c.PadLen)...)
+		em = append(append(em, 0), prefix...)
+		for len(em) < k-len(dig) {
+			em = append(em, c.Garbage[len(em)%len(c.Garbage)])
+		}
+		em = append(em, dig...)
 	case "shortem":
 		t := append(append([]byte{}, prefix...), dig...)
 		short := append([]byte{0, 1}, bytes.Repeat([]byte{0xff}, c.PadLen)...)
@@ -756,7 +771,7 @@ func exec(c Case) (vh.Outcome, error) {
 	return out, nil
 }
 
-const rule = "the harness owns the device RSA private key and signs arbitrary encoded messages (sig = EM^d mod N): correct form 1 (with NULL) and form 2 (without) for SHA-1/256/384/512; one byte replaced at a position drawn per class (00, 01, first / last / inner padding byte, separator, identifier, digest); shortened padding with shifted tail and garbage; short EM with 0..7 padding bytes; full-length EM whose DigestInfo is another DER / BER spelling (junk inside the algorithm identifier or behind the digest with adjusted lengths, long-form or indefinite lengths, other parameters, junk behind it); identifier of another hash; the label's digest behind the identifier of another algorithm (incl. RIPEMD-160, whose digests are as long as SHA-1's) or behind no identifier; digest of other data; single-bit flips of signature and body; arbitrary signature bytes; a genuine signature with one or two bytes added in front or one behind; genuine ECDSA signature under a non-RSA device key. A fifth of the cases keep the signature genuine and vary only the chain side (issuer, dates, extensions, the issuer's signature algorithm, constructor). Crossed with every signature-algorithm label 0..20, device key sizes 1024/1025/1031/1536/2047/2048 (a sixth of the root-issued device certificates carry the modulus under another public exponent: 3, 17, 2^31+1, 2^32+1, 2^40+1) (rarely 4096/4104/4608/6144; always, with 3072, in thorough), device certificate issued by a pool root / by a CA outside the pool / self-signed / expired / not yet valid, optionally carrying a vendor extension (Yubico arc, plain or critical) or another unknown critical extension (then only 'accepted => valid chain' is judged), signed by its issuer with SHA-256 / SHA-384 / SHA-512 or SHA-1 (which the platform verifier refuses by policy: only 'accepted => valid chain' is judged), pools of 1..3 roots handed over as a pool or (a third) as the two PEM files NewAttestor reads - and, in a fifteenth of all cases (always with a genuine signature, half of them under a device certificate issued by the CA the host trust store knows), as a degenerate configuration (both paths empty, missing files, directories, one path empty: either refused by the constructor or no root beyond the readable files is trusted) or as files whose names are also patterns ('...[x].piv.pem', '...?.u2f.pem') next to files those patterns match and which hold the CA that is not configured - the CA outside the pool is installed as this process's host trust store (SSL_CERT_FILE), i.e. a publicly trusted CA that is not configured -, slot certificate dated now / inside an expired device certificate's window / in the future / not at all (the chain must be judged at the current time). Oracle: the harness recomputes sig^e mod N itself; the verdict is the same when the call is repeated after a genuine attestation under the same device key; for *WithRSA SHA labels Attest = nil iff chain valid now and EM is form 1 or form 2 of the label's digest; DSA/ECDSA labels only-if; everything else must be refused. Non-trivial: every case except 'everything valid, form 1'."
+const rule = "the harness owns the device RSA private key and signs arbitrary encoded messages (sig = EM^d mod N): correct form 1 (with NULL) and form 2 (without) for SHA-1/256/384/512; one byte replaced at a position drawn per class (00, 01, first / last / inner padding byte, separator, identifier, digest); shortened padding with shifted tail and garbage; short EM with 0..7 padding bytes; shortened padding (8 or more FF octets, or fewer) whose freed octets sit between the unaltered identifier and the digest that still ends the message; full-length EM whose DigestInfo is another DER / BER spelling (junk inside the algorithm identifier or behind the digest with adjusted lengths, long-form or indefinite lengths, other parameters, junk behind it); identifier of another hash; the label's digest behind the identifier of another algorithm (incl. RIPEMD-160, whose digests are as long as SHA-1's) or behind no identifier; digest of other data; single-bit flips of signature and body; arbitrary signature bytes; a genuine signature with one or two bytes added in front or one behind; genuine ECDSA signature under a non-RSA device key. A fifth of the cases keep the signature genuine and vary only the chain side (issuer, dates, extensions, the issuer's signature algorithm, constructor). Crossed with every signature-algorithm label 0..20, device key sizes 1024/1025/1031/1536/2047/2048 (a sixth of the root-issued device certificates carry the modulus under another public exponent: 3, 17, 2^31+1, 2^32+1, 2^40+1) (rarely 4096/4104/4608/6144; always, with 3072, in thorough), device certificate issued by a pool root / by a CA outside the pool / self-signed / expired / not yet valid, optionally carrying a vendor extension (Yubico arc, plain or critical) or another unknown critical extension (then only 'accepted => valid chain' is judged), signed by its issuer with SHA-256 / SHA-384 / SHA-512 or SHA-1 (which the platform verifier refuses by policy: only 'accepted => valid chain' is judged), pools of 1..3 roots handed over as a pool or (a third) as the two PEM files NewAttestor reads - and, in a fifteenth of all cases (always with a genuine signature, half of them under a device certificate issued by the CA the host trust store knows), as a degenerate configuration (both paths empty, missing files, directories, one path empty: either refused by the constructor or no root beyond the readable files is trusted) or as files whose names are also patterns ('...[x].piv.pem', '...?.u2f.pem') next to files those patterns match and which hold the CA that is not configured - the CA outside the pool is installed as this process's host trust store (SSL_CERT_FILE), i.e. a publicly trusted CA that is not configured -, slot certificate dated now / inside an expired device certificate's window / in the future / not at all (the chain must be judged at the current time). Oracle: the harness recomputes sig^e mod N itself; the verdict is the same when the call is repeated after a genuine attestation under the same device key; for *WithRSA SHA labels Attest = nil iff chain valid now and EM is form 1 or form 2 of the label's digest; DSA/ECDSA labels only-if; everything else must be refused. Non-trivial: every case except 'everything valid, form 1'."
 
 func TestC06Attest(t *testing.T) {
 	vh.Run(t, vh.Spec[Case]{Property: "C06", Name: "TestC06Attest", Rule: rule, Gen: genCase, Exec: exec})
